@@ -1,6 +1,6 @@
 (* C02 -- responses and exceptions reach the caller exactly as the service produced them. *)
 From TM Require Import Base Frame Pdu Crc RtuCodec TcpCodec Framed Client Server Spec PduEncode
-  FramedProofs TcpProofs RtuProofs RtuCarried StreamProofs ClientProofs Histories ServerProofs TypedProofs EndToEnd.
+  FramedProofs TcpProofs RtuProofs RtuCarried StreamProofs ClientProofs Histories ServerProofs TypedProofs EndToEnd Text Run Exchange.
 
 (* 1. response / exception encoders are the spec encoders *)
 Theorem C02_rsp_pdu_is_spec : forall m r, rsp_ok r = true -> rsp_size r <= 253 ->
@@ -55,3 +55,31 @@ Theorem C02_typed_bits_exact : forall req r bs,
   exists a q rb, (req = ReqReadCoils a q /\ r = RspReadCoils rb \/ req = ReqReadDiscreteInputs a q /\ r = RspReadDiscreteInputs rb)
                  /\ len bs = q /\ bs = firstn (N.to_nat q) rb.
 Proof. exact typed_read_exact_bits. Qed.
+
+(* 6. THE COMPOSED STATEMENT (see C01.6): under every fragmentation in both directions the caller gets exactly what
+   the service produced -- the response value (bit data padded to whole bytes), or the exception with the same
+   numeric code -- and the client is idle again with the next transaction id *)
+Theorem C02_exchange_response : forall p m st r rsp k1 k2,
+  good_chunker k1 -> good_chunker k2 ->
+  idle st -> req_ok r = true -> req_size r <= 253 -> canonical_req r = true -> req_carried_by p r = true ->
+  rsp_ok rsp = true -> rsp_size rsp <= 253 -> canonical_rsp rsp = true -> rsp_carried_by p rsp = true ->
+  fc_value (rsp_fc rsp) = fc_value (req_fc r) ->
+  e2e_chunked p m st r [SReply rsp] k1 k2 = (CROk (pad_rsp rsp), [TCall (unit_id st) r], after p st r).
+Proof. exact exchange_response_any_fragmentation. Qed.
+Theorem C02_exchange_exception : forall p m st r c k1 k2,
+  good_chunker k1 -> good_chunker k2 ->
+  idle st -> req_ok r = true -> req_size r <= 253 -> canonical_req r = true -> req_carried_by p r = true ->
+  exc_carried_by p (fc_value (req_fc r)) -> ex_value c < 256 ->
+  e2e_chunked p m st r [SExc c] k1 k2 = (CRExc (ex_new (ex_value c)), [TCall (unit_id st) r], after p st r).
+Proof. exact exchange_exception_any_fragmentation. Qed.
+Theorem C02_exception_code_preserved : forall p m st r c,
+  idle st -> req_ok r = true -> req_size r <= 253 -> canonical_req r = true -> req_carried_by p r = true ->
+  exc_carried_by p (fc_value (req_fc r)) -> ex_value c < 256 ->
+  e2e_exchange p m st false r [SExc c] = (inl (CRExc (ex_new (ex_value c))), [TCall (unit_id st) r], after p st r)
+  /\ ex_value (ex_new (ex_value c)) = ex_value c.
+Proof. exact exchange_exception. Qed.
+Theorem C02_exchange_sequences : forall p m xs st, idle st -> Forall (ok_exchange p) xs ->
+  exchanges p m st xs = map (fun x => (inl (expected (snd x)), [TCall (unit_id st) (fst x)])) xs.
+Proof. exact exchanges_correct. Qed.
+Theorem C02_idle_again : forall p st r, idle st -> idle (after p st r).
+Proof. exact after_idle. Qed.
